@@ -274,6 +274,7 @@ pub fn run_batch<S: Scenario>(s: &S, a: &BatchArgs) -> Value {
         "distinct": digests.len(),
         "distinct_nontrivial": nt.len(),
         "distinct_states": states.len(),
+        "state_keys": if states.len() <= 4096 { states.clone() } else { Vec::new() },
         "rule": s.rule(),
         "counters": counters,
         "log_digest": format!("{log:016x}"),
